@@ -2,8 +2,10 @@
 import json
 import os
 import shutil
+import sys
 
 import cfggen
+import ext.c13x as x13
 import flow
 import gen
 import mockca
@@ -16,6 +18,8 @@ FINISH = dict(
         "Lean 4.33 kernel; axioms of every theorem within {propext, Classical.choice, Quot.sound}",
         "Lean compiler for acmed_model (same definitions as the theorems)",
         "py/gen.py extractor of DEFAULT_CERT_FILE_MODE / DEFAULT_PK_FILE_MODE / DEFAULT_ACCOUNT_FILE_MODE (Gen/Consts.lean)",
+        "probe op c13_getters (toml::from_str::<Config> as read_cnf does, then the real getters), op c14_cnf, subprocess "
+        "user=/group=/extra_groups= of Python for the non-root probe process",
         "child probe of storage.rs (op write_history: sets the process umask, calls the real write_file / "
         "set_account_data / set_keypair / write_certificate, `stat`s the file) and op config_load (dump)",
         "the harness's own reading of /etc/passwd and /etc/group (files back-end) for the expected ids",
@@ -34,7 +38,22 @@ FINISH = dict(
          "are loaded by the real start-up path, the FileManager it builds is used for real writes, judged against "
          "the CONFIGURED values (defaults from Gen/Consts). Daemon runs: stat of the account, key and certificate "
          "files the daemon itself created under a given umask. non-trivial = the file was created by the write "
-         "(mode clause applies) or an owner was configured.",
+         "(mode clause applies) or an owner was configured. "
+         "Further dimensions (py/ext/c13x.py): 20 % of the cases have a FAILING file hook (post / post allowed to fail / pre "
+         "allowed to fail / pre): after a failing post hook the file, created or rewritten by that write, is judged like "
+         "after a success; a failing pre hook leaves nothing to judge. 60 % carry pk_file_ext / cert_file_ext from "
+         "{none, pem, key, crt, der} (incl. equal and swapped) and one of three name formats. The path is a dangling "
+         "symbolic link, a symbolic link to an existing file or a second hard link of one (the model gets the path the "
+         "link leads to; the real stat of that file is judged; the link must stay a link, the sibling must stay the same "
+         "file). Histories run by a probe process that is NOT root (uid U, gid U, supplementary group G, for a named and a "
+         "number-only pair of ids): group G by name / number / absent x user U by number / name / absent x the three file "
+         "types x creation / rewrite of a file of U, plus random ones with unknown names, 4294967295, second writes, links "
+         "and failing hooks (set-group-id modes left out there: membership of supplementary groups is not in Model/Fs). "
+         "Owner spellings ' 1234', '1234 ', '+1234' and full-width digits (looked up as names). Configurations: modes as "
+         "TOML octal literals half of the time, extensions / file_name_format in a third, [global] only in an included "
+         "file (main has none) in a quarter, no [global] table anywhere (real read_cnf + the real getters: 0644 / 0600, no "
+         "owner; real writes with what the getters answer); the FileManager the start-up path gives to the ACCOUNT is used "
+         "for real writes and judged against the configured values like the certificate's.",
 )
 
 UMASKS = [0o000, 0o022, 0o027, 0o077, 0o777]
@@ -66,7 +85,7 @@ def owner_choices(w, ids):
     gnames = [n for n in ("daemon", "nogroup", "staff", "users", "mail") if n in w["groups"]] or list(w["groups"])[:3]
     nums = [str(i) for i in ids]
     common = [None, None, None] + nums + ["0", "00042", "4294967295", "nosuchname-verif", "x123", "12ab",
-                                         "", "99999999999", "4294967296"]
+                                         "", "99999999999", "4294967296"] + x13.ODD_OWNERS
     return common + unames + unames, common + gnames + gnames
 
 
@@ -92,17 +111,20 @@ def gen_case(rng, idx, w, users, groups, mode=None, ftype=None, as_prev=False):
         root = os.geteuid() == 0
         c["prev"] = {"mode": mode if as_prev else rmode(), "uid": rng.choice([0, 0, 1, 1000, 4242]) if root else os.geteuid(),
                      "gid": rng.choice([0, 0, 1, 100, 4242]) if root else os.getegid(), "len": rng.choice([0, 5, 300])}
-    if mode is None and rng.random() < 0.3:
+        if not as_prev and rng.random() < 0.3:
+            c["prev"] = x13.link_prev(rng, rmode, [0, 0, 1, 1000, 4242] if root else [os.geteuid()],
+                                      [0, 0, 1, 100, 4242] if root else [os.getegid()])
+    if mode is None and rng.random() < 0.3 and (c["prev"] or {}).get("link") != "symlink":
         c["second"] = {"cert_file_mode": rmode(), "pk_file_mode": rmode(),
                        "cert_file_user": rng.choice(users), "cert_file_group": rng.choice(groups),
                        "pk_file_user": rng.choice(users), "pk_file_group": rng.choice(groups),
                        "empty": rng.random() < 0.15}
-    return c
+    return x13.decorate(rng, c, hooks=mode is None)
 
 
 def settings_of(c):
     return {k: c[k] for k in ("cert_file_mode", "pk_file_mode", "cert_file_user", "cert_file_group",
-                              "pk_file_user", "pk_file_group") if c.get(k) is not None}
+                              "pk_file_user", "pk_file_group") + x13.NAMING if c.get(k) is not None}
 
 
 def steps_of(c, hook_spec=None):
@@ -117,11 +139,11 @@ def steps_of(c, hook_spec=None):
         if n == 0:
             if c.get("prev"):
                 p = c["prev"]
-                st["pre"] = {"content_hex": (b"o" * p["len"]).hex(), "mode": p["mode"], "uid": p["uid"], "gid": p["gid"]}
+                st["pre"] = x13.link_pre(name, p) if p.get("link") else {"content_hex": (b"o" * p["len"]).hex(), "mode": p["mode"], "uid": p["uid"], "gid": p["gid"]}
             else:
                 st["pre"] = {"absent": True}
-        if hook_spec:
-            st["hook_spec"] = hook_spec
+        if hook_spec or cfg.get("hook_spec"):
+            st["hook_spec"] = hook_spec or cfg["hook_spec"]
         out.append(st)
     return out
 
@@ -160,6 +182,8 @@ def evaluate(ctx, items, w, defaults, tag=""):
             ctx.broke("probe", "write_history did not run: %s" % json.dumps(out)[:300], {"kind": "history", "hist": hist})
             continue
         good.append((hist, root, op, out))
+        # a symbolic link is looked at through the file it leads to
+        good[-1] = (hist, root, op, dict(out, steps=[x13.view(s, o) for s, o in zip(hist["steps"], out["steps"])]))
     models = vlib.model([sl.model_op(h, o, w) for h, _, _, o in good]) if good else []
     jobs, meta = [], []
     for (hist, root, op, out), m in zip(good, models):
@@ -167,6 +191,10 @@ def evaluate(ctx, items, w, defaults, tag=""):
         for i, (s, o, ms) in enumerate(zip(hist["steps"], out["steps"], m["steps"])):
             mini = {"kind": "history", "hist": {"umask": hist["umask"],
                                                 "steps": [x for x in hist["steps"] if x.get("case") == s.get("case")]}}
+            if hist.get("run_as"):
+                mini["hist"]["run_as"] = hist["run_as"]
+            x13.link_checks(ctx, tag, s, o, mini)
+            x13.count_dims(ctx, tag, s)
             rc = sl.result_class(o)
             d = sl.compare_step(o, ms, aspects=("mode", "owner"))
             if d:
@@ -195,7 +223,13 @@ def evaluate(ctx, items, w, defaults, tag=""):
                 # which configurations must be accepted: an error by itself is left to the correspondence
                 # with the model (compare_step above); it is a violation when a configured, resolvable
                 # owner was not given to the file
-                ctx.count(tag + "unexpected-error")
+                hk = sl.hook_ok(s.get("hook_spec"))
+                if rc == "preHook" and not hk["pre_create"]:
+                    # the configured pre hook failed: the write did not start, the existing file is as it was
+                    # (compare_step above); nothing to judge
+                    ctx.count(tag + "failing-pre-hook:existing-file-untouched")
+                    continue
+                ctx.count(tag + ("expected-error:failing-post-hook" if rc == "postHook" and not hk["post_create"] else "unexpected-error"))
                 a = o["after"]
                 miss = [k for k, r, got in (("user", ru, a["uid"]), ("group", rg, a["gid"]))
                         if r[0] == "id" and r[1] != 4294967295 and got != r[1]]
@@ -203,6 +237,12 @@ def evaluate(ctx, items, w, defaults, tag=""):
                     ctx.violation("write_file failed (%s) and left the %s file %s without its configured %s: owner %s:%s, "
                                   "configured %s:%s" % (o.get("result"), s["ftype"], o["path"], "/".join(miss), a["uid"], a["gid"],
                                                         ru[1], rg[1]), mini)
+                elif rc == "postHook" and not hk["post_create"]:
+                    # the post hook runs after set_owner: the file exists (created by this write, or
+                    # rewritten) and is judged, mode and owner, as after a write that succeeded
+                    ctx.count(tag + "failing-post-hook:%s-file-judged" % ("created" if o.get("before") is None else "rewritten"))
+                    jobs.append(case)
+                    meta.append((s, o, mini, ru, rg, hist["umask"]))
                 continue
             jobs.append(case)
             meta.append((s, o, mini, ru, rg, hist["umask"]))
@@ -285,6 +325,11 @@ def config_part(ctx, w, defaults, scratch, ids):
                 given[k] = rng.choice([0o600, 0o640, 0o644, 0o400, 0o660, 0o604, rng.randint(0, 0o777)]) if k.endswith("mode") \
                     else rng.choice(users if k.endswith("user") else groups)
         cfg["global"].update(given)
+        if n % 3 == 2:
+            nm = x13.naming(rng)
+            cfg["global"].update({k: v for k, v in (("pk_file_ext", nm["pk_file_ext"]), ("cert_file_ext", nm["cert_file_ext"]),
+                                                    ("file_name_format", nm["name_format"])) if v is not None})
+            ctx.count("config:with-extensions-or-name-format")
         # half of the configurations are split over two files: an included file with its own [global]
         # table overrides a random subset of the options (a later-included value wins)
         if n % 2 == 1:
@@ -293,11 +338,19 @@ def config_part(ctx, w, defaults, scratch, ids):
                 if rng.random() < 0.5 and (k.endswith("mode") or os.geteuid() == 0):
                     inc[k] = rng.choice([0o600, 0o640, 0o644, 0o400, 0o660, 0o604]) if k.endswith("mode") \
                         else rng.choice(users if k.endswith("user") else groups)
-            if inc:
+            if n % 4 == 3:
+                # the main file has NO [global] table: the only one is in the included file
+                cfggen.write(os.path.join(root, "inc.toml"), {"global": x13.spell(ctx, rng, dict(cfg.pop("global"), **inc))})
                 cfg["include"] = ["inc.toml"]
-                cfggen.write(os.path.join(root, "inc.toml"), {"global": inc})
+                given = dict(given, **inc)
+                ctx.count("config:global-only-in-the-included-file")
+            elif inc:
+                cfg["include"] = ["inc.toml"]
+                cfggen.write(os.path.join(root, "inc.toml"), {"global": x13.spell(ctx, rng, inc)})
                 given = dict(given, **inc)
                 ctx.count("config:split-over-two-files")
+        if "global" in cfg:
+            cfg["global"] = x13.spell(ctx, rng, cfg["global"])
         path = cfggen.write(os.path.join(root, "acmed.toml"), cfg)
         ops.append({"op": "config_load", "path": path, "dump": True})
         metas.append((pat, given, cfg))
@@ -305,6 +358,8 @@ def config_part(ctx, w, defaults, scratch, ids):
     cases = []
     for (pat, given, cfg), o in zip(metas, outs):
         replay_obj = {"kind": "config", "global": given}
+        if "global" not in cfg:
+            replay_obj["layout"] = "global-only-in-the-included-file"
         certs = ((o or {}).get("loaded") or {}).get("certificates") if isinstance(o, dict) else None
         if not certs:
             ctx.broke("probe", "config_load did not load the configuration: %s" % json.dumps(o)[:300], replay_obj)
@@ -327,7 +382,23 @@ def config_part(ctx, w, defaults, scratch, ids):
                  "cert_file_user": fmc["cert_file_owner"], "cert_file_group": fmc["cert_file_group"],
                  "pk_file_user": fmc["pk_file_owner"], "pk_file_group": fmc["pk_file_group"],
                  "configured": given}
+            c.update({"pk_file_ext": fmc.get("pk_file_ext"), "cert_file_ext": fmc.get("cert_file_ext"),
+                      "name_format": fmc.get("crt_name_format")})
             cases.append(c)
+        # the same with the FileManager the start-up path gave to the ACCOUNT (main_event_loop.rs:53-75; it has no
+        # name format of its own: the certificate's is used for the key and certificate writes)
+        fma = (o["loaded"].get("accounts") or [{}])[0]
+        if "pk_file_mode" not in fma:
+            ctx.broke("probe", "config_load does not dump the account's FileManager (old probe?)", replay_obj)
+            continue
+        ctx.count("config:account-file-manager")
+        for ft in FTYPES:
+            cases.append({"id": len(cases), "ftype": ft, "umask": rng.choice(UMASKS[:4]), "empty": False, "prev": None, "second": None,
+                          "cert_file_mode": fma["cert_file_mode"], "pk_file_mode": fma["pk_file_mode"],
+                          "cert_file_user": fma["cert_file_owner"], "cert_file_group": fma["cert_file_group"],
+                          "pk_file_user": fma["pk_file_owner"], "pk_file_group": fma["pk_file_group"],
+                          "pk_file_ext": fma.get("pk_file_ext"), "cert_file_ext": fma.get("cert_file_ext"),
+                          "name_format": fmc.get("crt_name_format"), "configured": given, "fm_of": "account"})
     meta, jobs, verdicts = run_cases(ctx, cases, w, defaults, os.path.join(scratch, "cfgw"), tag="config:")
     # re-judge with the configured values in place of the effective ones
     rejobs, remeta = [], []
@@ -474,6 +545,8 @@ def run(ctx):
                   for i in range(12 if ctx.quick() else 60)]
         post_hook_stats(ctx, hooked, w, defaults, os.path.join(scratch, "hooked"))
         config_part(ctx, w, defaults, os.path.join(scratch, "cfg"), ids)
+        x13.noglobal_part(ctx, sys.modules[__name__], w, defaults, os.path.join(scratch, "noglobal"))
+        x13.nonroot_part(ctx, sys.modules[__name__], w, defaults, os.path.join(scratch, "nonroot"))
         daemon_part(ctx, w, defaults, os.path.join(scratch, "daemon"), helper, ids)
     finally:
         helper.close()
@@ -540,10 +613,13 @@ def replay(ctx):
         if obj.get("kind") == "daemon":
             judge_daemon(ctx, w, defaults, os.path.join(scratch, "d"), helper, obj["global"], obj["umask"])
         elif obj.get("kind") == "config":
-            replay_config(ctx, w, defaults, scratch, obj["global"])
+            replay_config(ctx, w, defaults, scratch, obj["global"], obj.get("layout"))
+        elif obj.get("kind") == "noglobal":
+            x13.noglobal_part(ctx, sys.modules[__name__], w, defaults, os.path.join(scratch, "noglobal"))
         else:
             hist = obj["hist"]
-            res = sl.run_histories([hist], os.path.join(scratch, "h"), workers=1)
+            res = sl.run_histories([hist], os.path.join(scratch, "h"), workers=1) if not hist.get("run_as") else \
+                x13.run_histories_as([hist], os.path.join(scratch, "h"), hist["run_as"][0], hist["run_as"][1], hist["run_as"][2:])
             evaluate(ctx, [(hist, res[0][0], res[0][1], res[0][2])], w, defaults)
     finally:
         helper.close()
@@ -557,11 +633,14 @@ def replay(ctx):
     return 1 if bad else 0
 
 
-def replay_config(ctx, w, defaults, scratch, given):
+def replay_config(ctx, w, defaults, scratch, given, layout=None):
     root = os.path.join(scratch, "cfg")
     cfg = cfggen.base(root, "http://127.0.0.1:9/directory")
     cfg["global"].pop("renew_delay", None)
     cfg["global"].update(given)
+    if layout == "global-only-in-the-included-file":
+        cfggen.write(os.path.join(root, "inc.toml"), {"global": cfg.pop("global")})
+        cfg["include"] = ["inc.toml"]
     path = cfggen.write(os.path.join(root, "acmed.toml"), cfg)
     o = vlib.probe([{"op": "config_load", "path": path, "dump": True}])[0]
     fmc = o["loaded"]["certificates"][0]
